@@ -12,6 +12,9 @@ def claim(pid, engine, technique, text, note, ref):
     CLAIMS[pid] = dict(engine=engine, technique=technique, text=text, note=note, ref=ref)
 
 exec(open(f"{ROOT}/tools/claims.py").read())
+for _pid, _txt in globals().get("ROUND3", {}).items():
+    if _pid in CLAIMS:
+        CLAIMS[_pid]["text"] += " " + _txt
 
 hooks_commits = []
 hp = f"{ROOT}/tools/hook_commits.txt"
